@@ -84,6 +84,16 @@ func checkC01Entry(w *World, r *Report) {
 				hit = true
 			}
 		}
+		if !hit && (e.Name() == "Route" || e.Name() == "Routes") {
+			// the exact-pattern lookups may use the structural search instead of the request matcher
+			for _, s := range order {
+				if s.fn != nil && s.fn.Name() == "route" && s.fn.Signature.Recv() != nil {
+					hit = true
+				}
+			}
+			ru.Check("entry point "+FuncName(e), w.Pos(e.Pos()), "reaches the shared root dispatcher roots.lookup, or (exact-pattern lookups) the structural search roots.route", hit, fmt.Sprint(hit))
+			continue
+		}
 		ru.Check("entry point "+FuncName(e), w.Pos(e.Pos()), "reaches the shared root dispatcher roots.lookup", hit, fmt.Sprint(hit))
 	}
 }
@@ -93,6 +103,7 @@ func checkC01Entry(w *World, r *Report) {
 func lookupRootObligations(w *World, ru *Rule) {
 	byPath, byDomain := w.Func("lookupByPath"), w.Func("lookupByDomain")
 	rootsLookup := w.Method("roots", "lookup")
+	rootsRoute := w.TryMethodIn(modulePath, "roots", "route") // nil when exact lookups go through the matcher
 	treeLookup := w.Method("iTree", "lookup")
 	txnT := w.FoxType("Txn")
 	rootTxnF := w.Field(txnT, "rootTxn")
@@ -106,6 +117,34 @@ func lookupRootObligations(w *World, ru *Rule) {
 				return
 			}
 			callee := site.Common().StaticCallee()
+			if callee != nil && callee == rootsRoute {
+				// same obligation as for roots.lookup, plus: a router method uses the roots of the tree it loaded
+				recv := site.Common().Args[0]
+				okk, why := false, "receiver "+valStr(recv)
+				root := fn
+				for root.Parent() != nil {
+					root = root.Parent()
+				}
+				switch {
+				case root.Signature.Recv() != nil && namedOf(root.Signature.Recv().Type()) == txnT:
+					b, f, isLoad := loadedField(recv)
+					if isLoad && f == innerRoot {
+						if _, f2, ok := loadedField(b); ok && f2 == rootTxnF {
+							okk, why = true, "txn.rootTxn.root (reads its own writes)"
+						}
+					}
+				default:
+					if _, f, isLoad := logicalField(recv); isLoad && f == iterRoot {
+						okk, why = true, "the iterator's snapshot root"
+					} else if b, f, isLoad := loadedField(recv); isLoad && f.Name() == "root" {
+						if c, isCall := b.(*ssa.Call); isCall && c.Call.StaticCallee() != nil && c.Call.StaticCallee().Name() == "getRoot" {
+							okk, why = true, "the roots of the tree this function loaded"
+						}
+					}
+				}
+				ru.Check("root used by "+FuncName(fn), w.Pos(in.Pos()), "looks up in the root that belongs to this entry point", okk, why)
+				return
+			}
 			switch callee {
 			case byPath, byDomain:
 				ru.Check("call of "+callee.Name()+" in "+FuncName(fn), w.Pos(in.Pos()), "the matchers are entered only through roots.lookup (or recursively)", allowedMatcherCallers[fn], FuncName(fn))
